@@ -387,10 +387,7 @@ func c11Teardown(c *core.Ctx) {
 		}
 		return
 	}
-	reps := core.ParseRaceLogs(fmt.Sprintf("%s.%d", prefix, os.Getpid()))
-	if len(reps) == 0 {
-		reps = core.ParseRaceLogs(prefix)
-	}
+	reps := core.ParseRaceLogs(prefix) // the prefix is private to this child; the runtime appends ".<pid>"
 	for _, rp := range reps {
 		c.Violatef("race:"+raceEntryPair(rp), map[string]any{"report": rp.Raw}, "data race between concurrent queries:\n%s", rp.Raw)
 	}
